@@ -1,11 +1,12 @@
 #!/bin/sh
-# builds the Coq development (full .vo) and the extracted OCaml model driver
+# builds the Coq development (full .vo) and the extracted OCaml model driver, relative to this checkout
 set -e
-cd /verif/coq
+ROOT=$(cd "$(dirname "$0")" && pwd)
+cd "$ROOT/coq"
 coq_makefile -f _CoqProject -o Makefile >/dev/null
 timeout 3000 make -j16 2>&1 | grep -v '^COQ\|^CoqMakefile\|^make' || true
-mkdir -p /verif/_build/extract
-cd /verif/_build/extract
-cp /verif/coq/Extract/Extract.v /verif/ocaml/driver.ml .
-timeout 600 coqc -Q /verif/coq/Model Sodium -Q /verif/coq/Spec Sodium Extract.v
+mkdir -p "$ROOT/_build/extract"
+cd "$ROOT/_build/extract"
+cp "$ROOT/coq/Extract/Extract.v" "$ROOT/ocaml/driver.ml" .
+timeout 600 coqc -Q "$ROOT/coq/Model" Sodium -Q "$ROOT/coq/Spec" Sodium Extract.v
 ocamlfind ocamlopt -package str -linkpkg -O3 -w -a model.mli model.ml driver.ml -o model_run 2>&1 | grep -v "options -O3" || true
